@@ -307,6 +307,25 @@ def _load_counter(stmts):
     return out
 
 
+def _load_nodes(stmts) -> list:
+    """Name nodes read anywhere except inside diagnostic call statements and asserts (with positions)"""
+    out = []
+
+    def visit(n):
+        if isinstance(n, ast.Expr) and isinstance(n.value, ast.Call) and src(n.value.func) in DIAGNOSTIC_CALLS:
+            return
+        if isinstance(n, ast.Assert):
+            return
+        if isinstance(n, ast.Name) and isinstance(n.ctx, ast.Load) and hasattr(n, "lineno"):
+            out.append(n)
+        for c in ast.iter_child_nodes(n):
+            visit(c)
+
+    for s in stmts:
+        visit(s)
+    return out
+
+
 def nondiagnostic_loads(stmts) -> set[str]:
     return set(_load_counter(stmts))
 
@@ -328,7 +347,9 @@ def _loop_carried(loop) -> set[str]:
     for n in sorted(nodes, key=key):
         first.setdefault(n.id, isinstance(n.ctx, ast.Load))
     aug = {n.target.id for r in roots for n in ast.walk(r) if isinstance(n, ast.AugAssign) and isinstance(n.target, ast.Name)}
-    return {k for k, v in first.items() if v} | aug
+    # the targets of a for loop are rebound at the start of every iteration: never carried over
+    targets = {n.id for n in ast.walk(loop.target) if isinstance(n, ast.Name)} if isinstance(loop, (ast.For, ast.AsyncFor)) else set()
+    return ({k for k, v in first.items() if v} | aug) - targets
 
 
 class Summariser:
@@ -424,6 +445,14 @@ class Summariser:
     # -- values: expand top-level conditional expressions into paths
     def values(self, e, st, substituted=False):
         """[(state, value ast)]"""
+        if isinstance(e, ast.BoolOp) and len(e.values) >= 2:
+            # `a or b` is `a if a else b`; `a and b` is `b if a else a`
+            first, rest = e.values[0], (e.values[1] if len(e.values) == 2 else ast.BoolOp(op=e.op, values=e.values[1:]))
+            out = []
+            for s, t in self.branch(first, st, substituted):
+                keep_first = t if isinstance(e.op, ast.Or) else not t
+                out.extend(self.values(first if keep_first else rest, s, substituted))
+            return out
         if isinstance(e, ast.IfExp):
             out = []
             for s, t in self.branch(e.test, st, substituted):
@@ -455,7 +484,7 @@ class Summariser:
     def _clock(st):
         """advance the logical clock of a state to its trace and fix the bind time of what was just bound"""
         env, trace = st
-        t = _ticks(trace) + env.get("__ib", 0)
+        t = env.get("__tb", 0) + _ticks(trace) + env.get("__ib", 0)
         bt = env.get("__bt") or {}
         if env.get("__t") != t or -1 in bt.values():
             env = dict(env)
@@ -522,11 +551,27 @@ class Summariser:
             stored &= self.liveset
         if loop_node is not None and self.shared["loads"] is not None:
             # only what is read after the loop, or carried from one iteration to the next, is part of the result
-            inside = _load_counter([loop_node])
-            after = {k for k, v in (self.shared["loads"] - inside).items() if v > 0} | self.shared["outside"]
+            end = getattr(loop_node, "end_lineno", None)
+            outer = self.shared.setdefault("loop_stack", [])
+            if end is not None and self.shared.get("root") is not None:
+                after = set(self.shared["outside"])
+                for n in self.shared["root_loads"]:
+                    if n.lineno > end or any(o.lineno <= n.lineno <= (o.end_lineno or o.lineno) for o in outer):
+                        after.add(n.id)
+            else:
+                inside = _load_counter([loop_node])
+                after = {k for k, v in (self.shared["loads"] - inside).items() if v > 0} | self.shared["outside"]
             stored &= after | _loop_carried(loop_node)
+            outer.append(loop_node)
+            pushed = True
+        else:
+            pushed = False
         inner.loop_stored = stored if loop else None
-        rest = inner.block(stmts, [(dict(env), ())])
+        try:
+            rest = inner.block(stmts, [(dict(env), ())])
+        finally:
+            if pushed:
+                self.shared["loop_stack"].pop()
         for e2, tr in rest:
             inner.paths.append(Path(tr, "fall", "", _env_text(e2, stored)))
         self._budget(len(inner.paths))
@@ -635,10 +680,14 @@ class Summariser:
                 for i, nm in enumerate(tnames):
                     env_in[nm] = ast.Name(id=f"_it{depth}_{i}", ctx=ast.Load())
                 head = f"for {src(self.subst(_as_load(s.target), env_in))} in {src(self.subst(s.iter, env))}"
+            # the body's trace starts empty: its logical clock continues from the events seen so far
+            env_in = dict(env_in)
+            env_in["__tb"] = env.get("__tb", 0) + _ticks(trace)
             body = self.sub_summary(s.body, env_in, loop=True, loop_node=s)
             if not isinstance(s, ast.While):
                 self.steps.pop()
             env2 = dict(env_in)
+            env2["__tb"] = env.get("__tb", 0)  # back in the enclosing block: its own trace counts again
             for k in killed:
                 env2[k] = None
             # the values with which the loop is entered are part of its meaning
@@ -785,6 +834,10 @@ class _Canon(ast.NodeTransformer):
                 return self.visit(node)
         self.generic_visit(node)
         name = node.func.attr if isinstance(node.func, ast.Attribute) else (node.func.id if isinstance(node.func, ast.Name) else "")
+        # list(<generator>) is a list comprehension, set(<generator>) a set comprehension
+        if isinstance(node.func, ast.Name) and name in ("list", "set") and len(node.args) == 1 and not node.keywords and isinstance(node.args[0], (ast.GeneratorExp, ast.ListComp)):
+            g = node.args[0]
+            return (ast.ListComp if name == "list" else ast.SetComp)(elt=g.elt, generators=g.generators)
         if name in CONSUMERS and len(node.args) == 1 and not node.keywords and isinstance(node.args[0], ast.ListComp):
             lc = node.args[0]
             node.args[0] = ast.GeneratorExp(elt=lc.elt, generators=lc.generators)
@@ -1032,6 +1085,8 @@ def summarise_block(stmts, max_paths: int = 2000, live: set[str] | None = None, 
     if live is not None:
         sm.shared["loads"] = _load_counter(stmts)
         sm.shared["outside"] = set(live)
+        sm.shared["root"] = stmts
+        sm.shared["root_loads"] = _load_nodes(stmts)
     if nested_asserts is not None:
         sm.shared["asserts"] = nested_asserts
     try:
